@@ -361,6 +361,37 @@ func (fr *frame) libCall(instr *ssa.Call, callee *ssa.Function, name string, sig
 		fr.setResult(instr, Val{T: Term{res, SSlice}})
 		ft.e.usedExternals["slices.Sorted(maps.Keys(m))"] = "model: fresh slice holding exactly the keys of m"
 		return reach, true
+	case "slices.Insert":
+		// slices.Insert(s, i, v...): value semantics like append (fresh array):
+		// result = s[:i] ++ v ++ s[i:]
+		if instr == nil || len(instr.Call.Args) != 3 {
+			return reach, false
+		}
+		stp, ok := instr.Call.Args[0].Type().Underlying().(*types.Slice)
+		if !ok {
+			return reach, false
+		}
+		h, es := u.elemHeap(stp.Elem())
+		sv := ft.termOf(args[0], instr.Call.Args[0].Type())
+		iv := ft.termOf(args[1], instr.Call.Args[1].Type())
+		vv := ft.termOf(args[2], instr.Call.Args[2].Type())
+		heap := ft.heapTerm(st, h)
+		sArr := ft.define("ins_s", arraySort(SInt, es), sel(heap, sx("sbase", sv.S)))
+		vArr := ft.define("ins_v", arraySort(SInt, es), sel(heap, sx("sbase", vv.S)))
+		n := ft.define("ins_n", SInt, sx("slen", vv.S))
+		total := ft.define("ins_len", SInt, sx("+", sx("slen", sv.S), n))
+		if ft.e.wantSafety(fr) {
+			fr.oblig("safe/index", []string{"C20"}, instr.Pos(), ft.e.lineText(instr.Pos()), reach, and(sx("<=", "0", iv.S), sx("<=", iv.S, sx("slen", sv.S))))
+		}
+		r := ft.newRef(st, "inserted", reach)
+		na := ft.fresh("ins_arr", arraySort(SInt, es))
+		ft.assume("true", fmt.Sprintf("(forall ((j Int)) (! (=> (and (<= 0 j) (< j %s)) (= (select %s j) (ite (< j %s) (select %s (ix %s j)) (ite (< j (+ %s %s)) (select %s (ix %s (- j %s))) (select %s (ix %s (- j %s))))))) :pattern ((select %s j))))",
+			total, na, iv.S, sArr, sv.S, iv.S, n, vArr, vv.S, iv.S, sArr, sv.S, n, na))
+		ft.setHeap(st, h, store(ft.heapTerm(st, h), r, na))
+		res := ft.define("inserted", SSlice, sx("mk-slice", r, "0", total, total))
+		fr.setResult(instr, Val{T: Term{res, SSlice}})
+		ft.e.usedExternals[name] = "model: fresh slice s[:i] ++ v ++ s[i:]"
+		return reach, true
 	case "slices.Reverse":
 		// in-place reversal: s[j] becomes old s[len-1-j], nothing else changes
 		if instr == nil || len(instr.Call.Args) != 1 {
